@@ -280,7 +280,13 @@ fn btpe<R: Rng + ?Sized>(btpe: Btpe, flipped: bool, rng: &mut R) -> u64 {
             }
         } else {
             // Step 4: Region 4, right exponential tail.
-            y = (x_r - v.ln() / lambda_r) as u64; // `as` cast saturates
+            let y_tmp = x_r - v.ln() / lambda_r;
+            // An infinite proposal (v == 0) must be rejected here: the saturating cast below
+            // would turn it into u64::MAX, which passes the range check when n == u64::MAX.
+            if !y_tmp.is_finite() {
+                continue;
+            }
+            y = y_tmp as u64; // `as` cast saturates
             if y > btpe.n {
                 continue;
             } else {
